@@ -297,6 +297,11 @@ def check_ir(rep, gs, tier):
                     break
                 kidx = w["prov"].off // dss
                 src = _load_source(ff, w["value"], conv)
+                nwords = max(1, (w["size"] or dss) // dss)
+                if nwords > 1 and conv is None and src is not None and src.root == ("param", 1) and src.off == kidx * g.ssize \
+                        and _load_width(ff, w["value"]) == w["size"]:
+                    seen.update(range(kidx, kidx + nwords))      # one wide load/store pair copies several consecutive words verbatim
+                    continue
                 if src is None or src.root != ("param", 1) or src.off != kidx * g.ssize:
                     ok = False
                     msg = "destination word %d receives %s (expected source word %d%s)" % (
@@ -362,6 +367,17 @@ def _ranges(s):
 def _def_text(ff, v):
     ins = ff.f.defs.get(v)
     return ins.text[:80] if ins else v
+
+
+def _load_width(ff, v):
+    ins = ff.f.defs.get(v)
+    if ins is None or ins.op != "load":
+        return None
+    m = re.match(r"^load (?:volatile )?(.*?), ptr ", ins.text)
+    try:
+        return ff.mod.types.size_align(m.group(1))[0]
+    except Exception:
+        return None
 
 
 def _load_source(ff, v, conv=None):
